@@ -807,9 +807,12 @@ func depthCases() []Case {
 	for d := 98; d <= 103; d++ {
 		out = append(out, convCases(ifaceChain(d), []string{fmt.Sprintf("depth:iface:%d", d)}, false)...)
 	}
-	// pointers do not count
-	rt := chainType("ptr", 150, intT)
-	out = append(out, convCases(chainValue(rt, 0).Interface(), []string{"depth:ptr:150"}, true)...)
+	// pointers do not count towards the nesting level; their own number is bounded by the same
+	// limit (more than maxLevel+1 unwrapping steps is a depth error: outside the model, which
+	// has no hop counter, so the long chain runs the oracles only)
+	rt := chainType("ptr", 100, intT)
+	out = append(out, convCases(chainValue(rt, 0).Interface(), []string{"depth:ptr:100"}, true)...)
+	out = append(out, opaqueCases(chainValue(chainType("ptr", 150, intT), 0).Interface())...)
 	return out
 }
 
